@@ -1,6 +1,6 @@
 #!/bin/bash
 # setup_cmd: build the framework offline from files on disk
-cd /verif || exit 1
+cd "$(dirname "$(readlink -f "$0")")" || exit 1
 export CARGO_NET_OFFLINE=true
 mkdir -p work evidence replays
 (cd harness && cargo build --release && cargo build --profile dbg) || exit 1
